@@ -87,6 +87,10 @@ SurvivesFor(s, w, order) == \E i \in DOMAIN SurvivorsE(s.cands, order, s.mini, s
                                 SurvivorsE(s.cands, order, s.mini, s.eps)[i].id = w.id
 UsableOrders(s, w) == {k \in DOMAIN s.orders : SurvivesFor(s, w, s.orders[k])}
 
+BestOnSomeCase(s, w) == \E c \in DOMAIN s.mini : SurvivesFor(s, w, <<c>>)
+\* a case order is an order of ALL the cases
+IsCaseOrder(s, order) == Len(order) = Len(s.mini) /\ {order[i] : i \in DOMAIN order} = DOMAIN s.mini
+
 WinClause(s, ev) ==
     LET w == ev.ind IN
     IF s.kind = "tournament" THEN
@@ -100,15 +104,19 @@ WinClause(s, ev) ==
         \* some shuffled order that has not served an earlier winner (orders may also be drawn in advance)
         ELSE IF Len(s.cands) > 1 /\ Len(s.mini) > 0 /\ s.orders = <<>> THEN "C17:no-fresh-shuffle"
         ELSE IF Len(s.cands) > 1 /\ Len(s.mini) > 0 /\ UsableOrders(s, w) = {} THEN "C17:not-survivor"
+        \* "in particular": best (or within the epsilon band) on at least one case among the candidates still available
+        ELSE IF Len(s.cands) > 1 /\ Len(s.mini) > 0 /\ ~BestOnSomeCase(s, w) THEN "C17:best-on-no-case"
         ELSE "ok"
 
 C17Clause(s, ev) ==
     CASE ev.e = "win" -> WinClause(s, ev)
+      [] ev.e = "shuffle" -> IF s.kind = "lexicase" /\ ~IsCaseOrder(s, ev.order) THEN "C17:case-order-incomplete" ELSE "ok"
       [] ev.e = "selend" -> IF ev.exc # "" THEN "C17:selection-raises" ELSE "ok"
       [] OTHER -> "ok"
 C17Attrs(s, ev) ==
     CASE ev.e = "win" -> <<s.kind, IF s.wins = 0 THEN "first-winner" ELSE "later-winner", IF s.eps THEN "epsilon" ELSE "plain">>
       [] ev.e = "selend" -> <<s.kind, ev.exc>>
+      [] ev.e = "shuffle" -> <<s.kind, IF s.wins = 0 THEN "first-winner" ELSE "later-winner">>
       [] OTHER -> <<>>
 
 Eff(s, ev) ==
